@@ -13,7 +13,7 @@ def run(rep, tier):
         nb = halpipe.report(rep, events, bad, {"be"}, name)
         tot += len(events)
         log("[C10] corpus %s: %d events, %d with back-end disagreement" % (name, len(events), nb))
-        for e in events[:1]:
+        for e in [events[0]]:
             rep.sample({k: e[k] for k in ("op", "n", "rs", "p", "shape")})
     rep.rule = ("every HAL corpus (ring ops N=1..8/32, exhaustive-digit normalisation/shifts/encoding, DFT-domain shapes, magnitude classes up to N=1024/65536) executed on "
                 "FFT64Ref, FFT64Avx, NTT120Ref, NTT120Avx from identical inputs; HalTrace.BeOK requires one outcome per pre-fill across back-ends; distinct = events")
